@@ -101,6 +101,8 @@ class Decision(object):
         txt = norm(t)
         if txt in self.facts:
             return self.facts[txt]
+        if isinstance(t, ast.Name) and t.id in getattr(self, "inline", {}):
+            return self.test(self.inline[t.id])
         if isinstance(t, ast.Compare) and len(t.ops) == 1:
             l, op, r = t.left, t.ops[0], t.comparators[0]
             lt = norm(l)
@@ -151,6 +153,11 @@ class Decision(object):
             elif isinstance(st, ast.Raise):
                 self.result = ("raise", norm(st.exc)[:40] if st.exc is not None else "")
             elif isinstance(st, (ast.Pass, ast.Assert)) or (isinstance(st, ast.Expr) and isinstance(st.value, ast.Constant)):
+                continue
+            elif getattr(self, "lenient", False):
+                # statements that do not take part in the decision (calls, loops, break/continue) are stepped over
+                if isinstance(st, (ast.Break, ast.Continue)):
+                    self.result = ("jump", type(st).__name__)
                 continue
             else:
                 raise Undecidable(norm_stmt(st)[:60])
